@@ -22,6 +22,12 @@ from c13 import fr, lim_str, stream_str, parse_stop, quiet, build, stream_of, _c
 from common import close
 
 
+# resuming an EXTEND-SPLIT run through performSpatiallyAdaptiv(refinement_container=...) still counts every area twice
+# (init_adaptive_combi: reinit_new_objects() makes all areas new again, operation.integral is not reset); proposed repair:
+# /verif/handoff/postfix/C14/fix-1-*.diff.  The path is generated for extend-split once that repair is in the tree.
+ES_CONTAINER_RESUME = False
+
+
 def view(sa, cfg):
     """the observables the property compares: refinement structure, scheme, lmax"""
     if cfg["strategy"] == "dimwise":
@@ -73,6 +79,8 @@ def reentrance_probe(sa, ret):
         info["areas"] = [[float(x) for x in np.atleast_1d(o.value)] for o in cp.refinement.get_objects()]
         info["n_new"] = len(new)
     err, _sur = quiet(cp.evaluate_operation)
+    if "areas" in info:
+        info["start_new_after"] = int(cp.refinement.startNewObjects)
     after = {"result": [float(x) for x in np.atleast_1d(cp.operation.get_result())],
              "points": int(cp.get_total_num_points()), "error": float(err),
              "evaluations": int(cp.refinement.evaluationstotal)}
@@ -177,14 +185,14 @@ def check_config(ctx, drv, cfg, L2, max_index, case_out=None):
                 area_size = sum(abs(x) for a in info["areas"] for x in a)
                 new_sum = [sum(a[k] for a in info["areas"][info["start_new"]:]) for k in range(len(before["result"]))]
             ctx.count("reentrant_%s_%s" % (cfg["strategy"], reent))
-            if not reent and "areas" in info and len(before["result"]) >= 1:
-                # the mirrored defect: evaluate_operation ADDS the new areas to the running integral once more
+            if "areas" in info and len(before["result"]) >= 1:
+                # mirror of the extend-split evaluation: the areas from startNewObjects on are added, then nothing is new
                 for k in range(len(before["result"])):
-                    mdl = Fraction(drv.ask("inceval %s %d %s" % (fr(before["result"][k]), info["start_new"],
-                                                               ",".join(fr(a[k]) for a in info["areas"]) or "-")))
+                    mdl = drv.ask("inceval %s %d %s" % (fr(before["result"][k]), info["start_new"],
+                                                        ",".join(fr(a[k]) for a in info["areas"]) or "-")).split()
                     size = max([abs(before["result"][k])] + [abs(a[k]) for a in info["areas"]])
-                    if abs(after["result"][k] - float(mdl)) > 1e-9 * size:
-                        corr("reevaluation-adds-new-areas", after["result"][k], str(mdl), sub)
+                    if len(mdl) != 2 or abs(after["result"][k] - float(Fraction(mdl[0]))) > 1e-9 * size or int(mdl[1]) != info["start_new_after"]:
+                        corr("extend-split-reevaluation", "%r startNew=%d" % (after["result"][k], info["start_new_after"]), " ".join(mdl), sub)
                 ctx.count("inceval_checked")
             inst = sa
             if save:
@@ -267,7 +275,7 @@ def check_config(ctx, drv, cfg, L2, max_index, case_out=None):
                 if reent and not vec_close([float(r2[5][-1])], [float(r0[5][-1])]):
                     corr("resumed-final-error", r2[5][-1], r0[5][-1], sub)
             ctx.case(sub, nontrivial=True, sample=sub if ctx.evaluations < 2 else None)
-        if cfg["strategy"] == "dimwise" and i < m:
+        if i < m and (cfg["strategy"] == "dimwise" or ES_CONTAINER_RESUME):
             # second way to resume: hand the reached refinement back, performSpatiallyAdaptiv(..., refinement_container=...)
             # on the same object (arrays start again; the refinement is re-initialised and re-evaluated)
             sub = dict(case, L1=L1, index=i, mode="container")
@@ -316,12 +324,11 @@ def check_config(ctx, drv, cfg, L2, max_index, case_out=None):
 
 
 def gen_final_limits(rng, stream, max_index, strategy):
-    """final limits L2 whose run has at most max_index+1 evaluations, stopping by max or by tolerance (with min).
-    For extend-split the final stop never depends on the error value: after the known double-add the errors of a continued
-    run are wrong, every error-driven stop would differ for that one reason, and the finding could not be matched narrowly."""
+    """final limits L2 whose run has at most max_index+1 evaluations, stopping by max or by tolerance (with min); the same
+    kinds for both strategies (extend-split final limits may be error-driven since the re-evaluation double count is repaired)"""
     m = rng.randrange(0, min(len(stream), max_index + 1))
     e, p, _ = stream[m]
-    kind = rng.choice(["max", "max", "tol", "tol", "tol+min"] if strategy == "dimwise" else ["max", "max", "tol+min"])
+    kind = rng.choice(["max", "max", "tol", "tol", "tol+min"])
     if kind == "max" or not math.isfinite(e):
         return {"tol": -1.0, "min": 1, "max": p - 1}
     if kind == "tol":
